@@ -162,6 +162,8 @@ def probe(t, variant, rng_pick):
             first = names0.index(s)
             try:
                 c = t[s]
+            except Warning:
+                raise
             except Exception as ex:
                 bad.append(("C17/string-index-not-first", "t[%r] raised %s although a column is stored under that name" % (s, type(ex).__name__), {}))
                 ex = None
@@ -184,6 +186,8 @@ def _item_assign(scratch, acc, pos, when):
     marker = 424242
     try:
         scratch[0, acc] = marker
+    except Warning:
+        raise       # an escalated warning interrupts the probe; the operation is then not judged
     except Exception as ex:
         bad.append(("C17/itemassign-wrong-column", "t[0, %r] = v raised %s although %r is the accessor of column %d (%s)" % (
             acc, type(ex).__name__, acc, pos, when), {"how": "raises", "when": when}))
@@ -236,6 +240,14 @@ def _nprobe(world, rec, ctx):
 # ----------------------------------------------------------------------------
 
 class NamesGen(Gen):
+    def next(self, world):
+        rec = Gen.next(self, world)
+        # scoped environment fault: warnings escalated to errors during this one operation
+        if rec.get("op") in ("setname", "rencol", "rencols", "nprobe", "view", "setattr", "nadd", "alias", "getitem", "ntab") \
+                and self.rng.random() < self.k.get("p_werr", 0.0):
+            rec["werr"] = True
+        return rec
+
     def rand_name(self, allow_none=True):
         r = self.rng
         pool = self.k.get("names", POOL)
@@ -332,6 +344,9 @@ class C17(Oracle):
                 how = rec["op"] + (":via-view" if not wr.is_table else "")
                 for t in tabs:
                     self.since.setdefault(t, []).append(how)
+        if rec.get("werr") and out["st"] == "exc" and out.get("warning"):
+            env.probe("c17_op_interrupted_by_escalated_warning")
+            return []       # the interrupted operation itself is not judged; what it leaves behind is
         if rec["op"] != "nprobe" or out["st"] != "ok":
             if rec["op"] == "nprobe" and out["st"] == "exc":
                 e = w.handles.get(rec["h"])
